@@ -495,8 +495,8 @@ class C15(Check):
         if resp.get("known") == "K14": return {"declined": "K14"}
         if "exc" in resp: return {"exc": resp["exc"]}
         out = {"chain": resp["chain"]}
-        if not resp["foreign"]:
-            out["pack"] = resp["pack"]; out["print"] = resp["print"]
+        if resp.get("pack") is not None: out["pack"] = resp["pack"]        # null = outside the pack model (a phase-2 class, MPTCP)
+        if resp.get("print") is not None: out["print"] = resp["print"]     # null = outside the print model (MPTCP)
         return out
 
     def model_obs(self, case, resp):
@@ -529,8 +529,11 @@ class C15(Check):
         for L in ch:
             if L.get("k") == "foreign": L.pop("parsed", None)
         out = {"chain": ch}
-        if not m.get("foreign"):            # pack / print are compared only when every layer is inside the pack/print model
+        # pack / print are compared where the model has them: pack() for chains of phase-1 classes, str()/dump() for every chain
+        # without an MPTCP layer
+        if m.get("pack") is not None:
             out["pack"] = obs["pack"] if isinstance(obs["pack"], str) else {"exc": obs["pack"]["exc"]}
+        if m.get("print") is not None:
             bad = [obs[k] for k in ("str", "dump") if isinstance(obs[k], dict)]
             out["print"] = {"exc": bad[0]["exc"]} if bad else "ok"
         return out
